@@ -297,7 +297,8 @@ class Contentline(str):
         # TODO: after unicode only, remove this
         # Convert back to unicode, after to_ical encoded it.
         name = to_unicode(name)
-        values = to_unicode(values)
+        # not utf-8-sig: a value may start with U+FEFF, this is not a file
+        values = to_unicode(values, DEFAULT_ENCODING)
         if params:
             params = to_unicode(params.to_ical(sorted=sorted))
             return cls(f'{name};{params}:{values}')
